@@ -28,6 +28,10 @@ build_race() {
   prep
   go build -race -o "$BIN/ionsim-race" ./cmd/ionsim || { echo "RACE BUILD FAILED (exit 2)"; exit 2; }
 }
+build_cover() {
+  prep
+  go build -cover -coverpkg=github.com/amzn/ion-go/ion,ionsim/cmd/ionsim -o "$BIN/ionsim-cover" ./cmd/ionsim || { echo "COVER BUILD FAILED (exit 2)"; exit 2; }
+}
 case "${1:-}" in
   build)
     build
@@ -41,6 +45,7 @@ case "${1:-}" in
     shift
     [ "${1:-}" = "C18" ] && build_race
     tier="${2:-${VERIF_TIER:-quick}}"
+    [ "$tier" = "thorough" ] && [ -z "${IONSIM_NO_COVER:-}" ] && build_cover
     exec "$BIN/ionsim" check "$1" "$tier"
     ;;
   replay)
